@@ -176,6 +176,16 @@ def r3(ctx):
         crv = ret_values(clo)
         ok2 = len(crv) == 1 and has(core(crv[0][0]), Call('BufRead::lines', ANY))
         ctx.require(ok2, clo, 'lines', 'each file contributes its lines in order', None)
+        # ... ALL its lines: whatever drops or limits lines inside the per-file closure acts before the max_sequences cut, which then counts
+        # other lines than the first max_sequences of the input (a blank-line filter reads past the prefix, into later files)
+        from rules.common import closures_in as _cin
+        for x in [clo] + _cin(ctx, clo):
+            for t_ in x.calls(r'Iterator::(filter|skip|take|step_by|skip_while|take_while|filter_map)$|Itertools::(dedup|unique)\w*$'):
+                nm = (t_.callee_res() or '').rsplit('::', 1)[-1]
+                if nm == 'filter_map' and match(peel(sym(x, t_.args[1])), ('fn', Pred(lambda n: n.endswith('Result::ok')))):
+                    continue
+                ctx.fail(x, 'lines-selected-before-cut|' + nm, 'the lines of a file pass through `%s` (line %d) before the max_sequences cut: the cut no longer takes the '
+                         'first max_sequences lines of the input' % (nm, t_.span['line']), t_.span)
     src = t
     ctx.require(has(src, ('arg', 1, ANY)), b, 'file-order', 'files are visited in the given order', None)
 
@@ -408,6 +418,26 @@ def normalize_total(ctx):
                     'unicode::normalize returns `%s` (line %d) without normalising, and not under a quick check that answered Yes: text in a form the quick check '
                     'calls Maybe (base letter + combining mark) stays unnormalised, so equal words get different dictionary keys' % (
                         show_in(b, v)[:60], b.blocks[blk].term.span['line']), b.blocks[blk].term.span)
+    # each form is produced by the method of its own name (NFKC by nfkc(), ...): the variant decides the arm, the arm calls the namesake
+    from analysis.alts import ret_variant_alts
+    tbl = ret_variant_alts(ctx.facts, b, lambda c: c[0] == 'arg' and c[1] == 2) or {}
+    seen = 0
+    for var, als in sorted(tbl.items()):
+        forms = set()
+        for a_ in als:
+            for x in walk(a_.value):
+                if isinstance(x, tuple) and x and x[0] == 'call':
+                    m_ = re.search(r'::(nfc|nfd|nfkc|nfkd)$', x[1])
+                    if m_:
+                        forms.add(m_.group(1))
+        if not forms:
+            continue
+        seen += 1
+        ctx.require(forms == {var.lower()}, b, 'form-of-variant|' + var, 'Normalization::%s is computed with %s()' % (var, var.lower()),
+                    'Normalization::%s is computed with %s(): the text is brought into another normal form than the one asked for (dictionary keys, BPE corpus and '
+                    'metrics all ask for NFKC)' % (var, ' / '.join(sorted(forms))))
+    if seen and seen < 4:
+        ctx.note('normalize: only %d of the 4 normal forms could be attributed to a variant' % seen)
     return n
 
 
@@ -480,3 +510,17 @@ def r12(ctx):
         raise AnchorMissing('text::split_words: the find_iter over the word (found %d)' % found)
     res = [t for t in b.calls(r'Regex::new$')]
     ctx.require(len(res) == 1, b, 'one-pattern', 'split_words compiles one pattern', 'found %d' % len(res))
+    if len(res) == 1:
+        # the parts are DELIMITED runs: the pattern is anchored with \b on both sides (the class is \w without the digits, so without the anchors
+        # the letters of `mp3` would count as the word `mp`)
+        pc = core(sym(b, res[0].args[0]))
+        lit = pc[1] if pc[0] == 'const' and isinstance(pc[1], str) else None
+        if lit is None:
+            raise AnchorMissing('split_words: the pattern as a string literal')
+        body_ = lit.strip().strip('"')
+        body_ = re.sub(r'^r?#*"?', '', body_)
+        inner = body_.replace('\\\\', '\\')
+        core_ = re.sub(r'^(\(\?:)+', '', inner)
+        core_ = re.sub(r'\)+$', '', core_)
+        ctx.require(core_.startswith('\\b') and core_.endswith('\\b'), b, 'parts-delimited', 'the word-part pattern is anchored with \\b on both sides',
+                    'the word-part pattern `%s` is not anchored at word boundaries on both sides: letter runs touching a digit (`mp3`, `3d`) are counted as words' % inner[:80], res[0].span)
